@@ -144,8 +144,23 @@ def w_explicit(ctx, rng, idx):
 def w_implicit(ctx, rng, idx):
     dims, A, x0, nz, markov, cplx = setting(rng)
     hs = steps(rng)
+    zero_first = rng.random() < 0.12
+    if zero_first:
+        # a time grid that lists the initial time twice (np.diff gives a first step of exactly zero, or of rounding size), together with
+        # an initial value of low rank (a unit vector or a product state): the first stored state equals the initial one
+        hs = [[0.0, 1e-16, 1e-13][int(rng.integers(0, 3))]] + hs + ([float(rng.uniform(0.05, 0.5))] if len(hs) < 2 else [])
+        if not markov:
+            with probe.oracle():
+                d_ = len(dims)
+                if rng.random() < 0.5:
+                    x0 = tt.unit(dims, [int(rng.integers(0, m)) for m in dims])
+                else:
+                    x0 = gen.rand_tt(rng, dims, [1] * d_, [1] * (d_ + 1), cplx)
+                    x0 = (1.0 / x0.norm()) * x0
     scheme = ['implicit_euler', 'trapezoidal_rule'][idx % 2]
     tts = ['als', 'mals'][int(rng.integers(0, 2))] if len(dims) >= 2 else 'als'
+    if zero_first:
+        tts = 'als'  # (MALS adapts the ranks to the low-rank first state; one two-site sweep from there need not be exact afterwards)
     micro = ['solve', 'lu'][int(rng.integers(0, 2))]
     g = max_state(rng, dims, cplx) if not markov else prob_state(rng, dims)
     with probe.oracle():
@@ -159,7 +174,7 @@ def w_implicit(ctx, rng, idx):
         efn = ode.errors_impl_euler if scheme == 'implicit_euler' else ode.errors_trapezoidal
         call('ode.' + efn.__name__, efn, A, sol, hs, prop=P)
     if rng.random() < 0.5:  # same objects, other step sizes / other inner solver
-        tts2 = ['als', 'mals'][int(rng.integers(0, 2))] if len(dims) >= 2 else 'als'
+        tts2 = ['als', 'mals'][int(rng.integers(0, 2))] if len(dims) >= 2 and not zero_first else 'als'
         call('ode.' + scheme, fn, A, x0, g, steps(rng), prop=P, refusals=(np.linalg.LinAlgError,), tt_solver=tts2, micro_solver=['solve', 'lu'][int(rng.integers(0, 2))],
              normalize=nz, progress=False, threshold=0.0, repeats=1, tags=['second_call'])
     if idx < 2:
